@@ -49,6 +49,7 @@ type WorkerOut struct {
 	SiteHits      []uint32       `json:"site_hits,omitempty"`
 	SiteNames     []string       `json:"site_names,omitempty"`
 	StepCapSample []string       `json:"step_cap_sample,omitempty"`
+	SeqReplays    int            `json:"seq_replays,omitempty"`
 }
 
 // TestWorker runs simulated executions idx = from, from+stride, ... < to (or
@@ -177,12 +178,25 @@ func TestWorker(t *testing.T) {
 			a := doRun(t, engine, profile, tier, seed, idx, best.Trace, true)
 			b := doRun(t, engine, profile, tier, seed, idx, best.Trace, false)
 			rf := &ReplayFile{Property: r.Viol.Property, Engine: engine, Profile: profile, Tier: tier, Seed: seed, Run: idx,
-				Decisions: trimZeros(best.Trace), Violation: a.Viol, LogHash: fmt.Sprintf("%016x", a.logHash), Log: a.LogLines, OrigLen: len(r.Trace)}
+				Decisions: trimZeros(best.Trace), Violation: a.Viol, LogHash: fmt.Sprintf("%016x", a.logHash), Log: a.LogLines, OrigLen: len(r.Trace),
+				SeqFrom: from, SeqStride: stride, OrigLogHash: fmt.Sprintf("%016x", r.logHash)}
 			if a.eng != nil {
 				rf.Describe = a.eng.Describe()
 			}
 			if !sameViolation(a.Viol, r.Viol) || a.logHash != b.logHash {
-				out.Harness = fmt.Sprintf("run %d: violation %v did not replay deterministically (replay gave %v, hashes %016x / %016x)", idx, r.Viol, a.Viol, a.logHash, b.logHash)
+				// The run does not reproduce on its own in this process: its outcome
+				// depends on state that earlier runs of this process left behind in
+				// the code under test (a package-level variable). Report it as a
+				// sequence replay: a fresh process re-executes the runs of this
+				// process in order up to the failing one.
+				rf = &ReplayFile{Property: r.Viol.Property, Engine: engine, Profile: profile, Tier: tier, Seed: seed, Run: idx,
+					Violation: r.Viol, LogHash: fmt.Sprintf("%016x", r.logHash), OrigLen: len(r.Trace),
+					SeqFrom: from, SeqStride: stride, SeqUsed: true}
+				if r.eng != nil {
+					rf.Describe = r.eng.Describe()
+				}
+				out.Viols = append(out.Viols, rf)
+				out.SeqReplays++
 				break
 			}
 			out.Viols = append(out.Viols, rf)
@@ -233,7 +247,19 @@ func TestReplay(t *testing.T) {
 	if dec == nil {
 		dec = []uint32{}
 	}
-	r := doRun(t, rf.Engine, rf.Profile, rf.Tier, rf.Seed, rf.Run, dec, true)
+	var r *Run
+	if rf.SeqUsed {
+		// re-execute the failing process's runs in order (state carried in
+		// package-level variables of the code under test)
+		for idx := rf.SeqFrom; ; idx += rf.SeqStride {
+			r = doRun(t, rf.Engine, rf.Profile, rf.Tier, rf.Seed, idx, nil, idx == rf.Run)
+			if idx >= rf.Run {
+				break
+			}
+		}
+	} else {
+		r = doRun(t, rf.Engine, rf.Profile, rf.Tier, rf.Seed, rf.Run, dec, true)
+	}
 	loadKnown().match(r)
 	if os.Getenv("VERIF_SHOWLOG") != "" {
 		for _, l := range r.LogLines {
